@@ -1,6 +1,6 @@
 """C09 - decided by spec/core/Geoh5Core.tla (TLC) + replay of the exported state graph (harness/core_replay.py)."""
 from ..core_check import make
 
-run, replay = make("C09", ["C09_quick.cfg", "C09by_quick.cfg", "C09ty_quick.cfg"], ["C09_thorough.cfg", ("Sim_all.cfg", {"num": 150, "depth": 30})],
+run, replay = make("C09", ["C09_quick.cfg", "C09by_quick.cfg", "C09ty_quick.cfg", "C12ro_quick.cfg", "C12xd_quick.cfg"], ["C09_thorough.cfg", ("Sim_all.cfg", {"num": 150, "depth": 30})],
                    "per-node digests (attributes+datasets+property groups, child links, type nodes, header) before and after every replayed action must differ only inside the action's footprint computed by the specification", neg=None,
                    concat=[("DrillholeConcatExportFlags.cfg", 21, None)])
